@@ -720,6 +720,7 @@ def discriminator_schema_probe(R, aspects):
 CTOR_SRC = '''
 from dataclasses import dataclass, field, fields, InitVar
 from typing import List, Optional, ClassVar
+from apischema.metadata import skip
 
 @dataclass
 class Plain:
@@ -832,6 +833,13 @@ class WithMeta(metaclass=Meta):
     a: int = 0
 
 @dataclass
+class SkippedIn:                            # fields that deserialization skips still get their default
+    x: int
+    y: List[int] = field(default_factory=list, metadata=skip(deserialization=True))
+    z: int = field(default=3, metadata=skip)
+    w: str = "w"
+
+@dataclass
 class Nested:
     child: PostChild
     items: List[Mixed] = field(default_factory=list)
@@ -850,6 +858,7 @@ CASES = [
     (WithInitVar, {"a": 2, "scale": 5}), (WithInitVar, {"a": 2}),
     (Slotted, {"a": 1, "b": "s"}), (Slotted, {"a": 1}),
     (Guarded, {"a": 1, "b": "  padded "}), (WithNew, {"a": 4}), (WithNew, {}), (WithMeta, {"a": 4}),
+    (SkippedIn, {"x": 1}), (SkippedIn, {"x": 1, "w": "v"}), (SkippedIn, {"x": "no"}), (List[SkippedIn], [{"x": 1, "w": "a"}, {"x": 2}]),
     (Nested, {"child": {"name": " N ", "size": 1}, "items": [{"code": "x"}, {"code": "y", "n": 0}], "own": {"a": 1}, "sub": {"a": 1}}),
     (Nested, {"child": {"name": 3}, "items": [{"n": "bad"}]}),
     (List[PostChild], [{"name": " a "}, {"name": " B ", "size": 2}]), (Optional[OwnInit], {"a": 5}), (Optional[SubInit], None),
@@ -1285,3 +1294,84 @@ def aggregate_probe(R, aspects=("dispatch", "schema"), n_classes=40, data_per_cl
             R.violation("the keys of the datum are not dispatched as documented (model Small/Aggregate.v: regular properties, flattened "
                         "aliases, first matching pattern, the rest additional / unexpected)", meta[i])
         R.hist["aggregate_cases"] = len(items)
+
+
+EDGE_SRC = '''
+import re
+from dataclasses import dataclass, field
+from typing import Dict, NewType
+from apischema import schema
+from apischema.metadata import conversion, properties
+
+@dataclass
+class TwoPatterns:                     # overlapping patterns with different value types
+    a: Dict[str, int] = field(default_factory=dict, metadata=properties(pattern=re.compile("^a")))
+    b: Dict[str, str] = field(default_factory=dict, metadata=properties(pattern=re.compile("^ab")))
+
+@dataclass
+class NameInPattern:                   # a regular property whose name matches a pattern field
+    a1: str = ""
+    rest: Dict[str, int] = field(default_factory=dict, metadata=properties(pattern=re.compile("^a")))
+
+class Foo:
+    def __init__(self, v):
+        self.v = v
+
+def from_int(i: int) -> Foo:
+    return Foo(i)
+
+@dataclass
+class ConvertedField:                  # a field-level conversion with a field-level schema
+    x: Foo = field(metadata=conversion(deserialization=from_int) | schema(min=0))
+
+Key = NewType("Key", str)
+schema(pattern="^k")(Key)
+
+@dataclass
+class KeyedRest:                       # additional properties whose key type is constrained
+    n: int = 0
+    rest: Dict[Key, int] = field(default_factory=dict, metadata=properties)
+'''
+
+
+def schema_edge_probe(R):
+    """directed instances of three recorded disagreements between deserialize and deserialization_schema (C06), each with
+    controls on which the two must agree"""
+    pyrun.ensure_repo_on_path()
+    import apischema.cache
+    import jsonschema
+    from apischema import deserialize, ValidationError
+    from apischema.json_schema import deserialization_schema
+    apischema.cache.reset()
+    mod = pyrun.exec_module(EDGE_SRC)
+    cases = [
+        (mod.TwoPatterns, {"ab": 1}, "overlapping-pattern-properties"), (mod.TwoPatterns, {"ax": 1}, None),
+        (mod.TwoPatterns, {"ax": "s"}, None), (mod.TwoPatterns, {"ab": []}, None),
+        (mod.NameInPattern, {"a1": "x"}, "overlapping-pattern-properties"), (mod.NameInPattern, {"a2": 1}, None),
+        (mod.NameInPattern, {"a2": "x"}, None), (mod.NameInPattern, {"a1": 3}, None),
+        (mod.ConvertedField, {"x": -1}, "field-conversion-constraints"), (mod.ConvertedField, {"x": 1}, None),
+        (mod.ConvertedField, {"x": "s"}, None), (mod.ConvertedField, {}, None),
+        (mod.KeyedRest, {"n": 1, "zz": 2}, "additional-properties-key-constraints"), (mod.KeyedRest, {"n": 1, "kz": 2}, None),
+        (mod.KeyedRest, {"kz": "s"}, None), (mod.KeyedRest, {"n": "s"}, None),
+    ]
+    try:
+        for tp, d, tag in cases:
+            R.count("schema_edge_probe")
+            info = dict(source=EDGE_SRC, type=tp.__name__, data=d)
+            try:
+                deserialize(tp, copy.deepcopy(d))
+                acc = True
+            except ValidationError:
+                acc = False
+            try:
+                doc = deserialization_schema(tp)
+                valid = jsonschema.Draft202012Validator(doc).is_valid(d)
+            except Exception as e:   # noqa
+                R.violation(f"deserialization_schema({tp.__name__}): {type(e).__name__}: {e}", info)
+                continue
+            if acc != valid and not (tag and R.known_match(tag)):
+                R.violation(f"deserialize {'accepts' if acc else 'rejects'} {d!r} for {tp.__name__} but its schema says {valid}",
+                            dict(info, schema=doc))
+    finally:
+        pyrun.drop_module(mod)
+        apischema.cache.reset()
